@@ -1472,9 +1472,17 @@ class System:
         prev = self.allobjects[fullName]
         obj.report(f"duplicate {str(prev)}", thresh=1)
         subtree = self._subtree(prev)
+        names_before = [o.fullName() for o in subtree]
         self._remove(prev)
         old_name = prev.name
         prev.name = old_name + ' ' + str(i)
+        # The problems recorded for the superseded definition follow it under its new name:
+        # the new holder of the name has not been reported yet.
+        for names in self.parse_errors.values():
+            for before, o in zip(names_before, subtree):
+                if before in names:
+                    names.discard(before)
+                    names.add(o.fullName())
         if prev.parent is not None and prev.parent is not obj.parent and prev.parent.contents.get(old_name) is prev:
             # Names can contain dots (the setter of property x is named 'x.setter'): the previous holder 
             # of the full name is not always a sibling, so its parent will not see its entry overwritten.
